@@ -184,3 +184,69 @@ Theorem all_translated :
   go_MessageType_Class_translated = true /\ go_MessageType_IsPriority_translated = true /\
   go_MessageType_IsEncrypted_translated = true.
 Proof. repeat split. Qed.
+
+(* ---------- frame.FrameV1 header accessors (bytes at constant positions) ---------- *)
+(* TTL is byte 1; ReduceTTL saturates at zero: the translated source equals the forwarding model's
+   rule for every TTL and every amount, and in particular ReduceTTL(1) is Forward.reduce_ttl *)
+From Verif Require Import Forward LinkFrame.
+
+Theorem go_reduce_ttl_saturates : forall ttl by_, ttl < 256 -> by_ < 256 ->
+  go_FrameV1_ReduceTTL ttl by_ = if by_ <? ttl then ttl - by_ else 0.
+Proof.
+  intros ttl b Ht Hb. unfold go_FrameV1_ReduceTTL. destruct (N.ltb_spec b ttl) as [H|H]; [|reflexivity].
+  apply go_sub_small; [lia|]. change (2 ^ 8) with 256. exact Ht.
+Qed.
+
+Theorem go_reduce_ttl_is_model : forall ttl, ttl < 256 -> go_FrameV1_ReduceTTL ttl 1 = reduce_ttl ttl.
+Proof.
+  intros ttl Ht. rewrite go_reduce_ttl_saturates by (auto; reflexivity). unfold reduce_ttl. reflexivity.
+Qed.
+
+Theorem go_ttl_accessors : forall b v, go_FrameV1_TTL b = b /\ go_FrameV1_SetTTL b v = v.
+Proof. intros. split; reflexivity. Qed.
+
+(* flow flags: byte 2; setting a flag never clears another one and makes HasFlowFlag true *)
+Theorem go_flow_flags : forall fc flag,
+  go_FrameV1_HasFlowFlag (go_FrameV1_SetFlowFlag fc flag) flag = true /\
+  (forall other, go_FrameV1_HasFlowFlag fc other = true -> go_FrameV1_HasFlowFlag (go_FrameV1_SetFlowFlag fc flag) other = true).
+Proof.
+  intros fc flag. unfold go_FrameV1_HasFlowFlag, go_FrameV1_SetFlowFlag. split.
+  - apply N.eqb_eq. apply N.bits_inj. intros n. rewrite N.land_spec, N.lor_spec. destruct (N.testbit fc n), (N.testbit flag n); reflexivity.
+  - intros other H. apply N.eqb_eq in H. apply N.eqb_eq. apply N.bits_inj. intros n.
+    assert (Hn : N.testbit (N.land fc other) n = N.testbit other n) by (rewrite H; reflexivity).
+    rewrite N.land_spec in Hn. rewrite N.land_spec, N.lor_spec.
+    destruct (N.testbit fc n), (N.testbit flag n), (N.testbit other n); cbn in *; congruence.
+Qed.
+
+(* sequence numbers are stored big-endian in bytes 8..11 (frame) / 4..7 (link frame):
+   the translated getter inverts the translated setter *)
+Lemma be32_get_set n : n < 2 ^ 32 ->
+  ((N.shiftr n 24 mod 256 * 256 + N.shiftr n 16 mod 256) * 256 + N.shiftr n 8 mod 256) * 256 + N.shiftr n 0 mod 256 = n.
+Proof.
+  intros Hn. rewrite !N.shiftr_div_pow2. change (2 ^ 0) with 1. change (2 ^ 8) with 256. change (2 ^ 16) with 65536. change (2 ^ 24) with 16777216.
+  change (2 ^ 32) with 4294967296 in Hn. rewrite N.div_1_r.
+  assert (E : n / 16777216 mod 256 = n / 16777216) by (apply N.mod_small; apply N.div_lt_upper_bound; lia).
+  rewrite E. lia.
+Qed.
+
+Theorem go_frame_seq_roundtrip : forall a b c d n, n < 2 ^ 32 ->
+  let '(a', b', c', d') := go_FrameV1_SetSequenceNum a b c d n in go_FrameV1_SequenceNum a' b' c' d' = n.
+Proof. intros a b c d n Hn. unfold go_FrameV1_SetSequenceNum, go_FrameV1_SequenceNum. apply be32_get_set. exact Hn. Qed.
+
+Theorem go_link_seq_roundtrip : forall a b c d n, n < 2 ^ 32 ->
+  let '(a', b', c', d') := go_LinkFrame_SetSequenceNum a b c d n in go_LinkFrame_SequenceNum a' b' c' d' = n.
+Proof. intros a b c d n Hn. unfold go_LinkFrame_SetSequenceNum, go_LinkFrame_SequenceNum. apply be32_get_set. exact Hn. Qed.
+
+(* the link-frame model reads the sequence number at the same four bytes *)
+Theorem go_link_seq_is_model : forall l0 l1 v r s0 s1 s2 s3 rest,
+  seq_of (l0 :: l1 :: v :: r :: s0 :: s1 :: s2 :: s3 :: rest) = go_LinkFrame_SequenceNum s0 s1 s2 s3.
+Proof. intros. unfold seq_of, go_LinkFrame_SequenceNum. cbn [skipn firstn]. unfold be_decode. cbn. lia. Qed.
+
+Theorem accessors_translated :
+  go_FrameV1_TTL_translated = true /\ go_FrameV1_SetTTL_translated = true /\ go_FrameV1_ReduceTTL_translated = true /\
+  go_FrameV1_FlowControl_translated = true /\ go_FrameV1_HasFlowFlag_translated = true /\ go_FrameV1_SetFlowFlag_translated = true /\
+  go_FrameV1_RecvRate_translated = true /\ go_FrameV1_MessageType_translated = true /\
+  go_FrameV1_SequenceNum_translated = true /\ go_FrameV1_SetSequenceNum_translated = true /\
+  go_LinkFrame_Length_translated = true /\ go_LinkFrame_Version_translated = true /\
+  go_LinkFrame_SequenceNum_translated = true /\ go_LinkFrame_SetSequenceNum_translated = true.
+Proof. repeat split. Qed.
